@@ -124,8 +124,8 @@ def register(hub, props=("C13", "C15"), pool=None):
         for i, (a, s) in enumerate(zip(call.args, call.pre)):
             if s is None:
                 continue
-            if call.exc is None and inplace_target and i == 0:
-                continue
+            if call.exc is None and inplace_target and (i == 0 or a is call.args[0]):
+                continue  # the documented in-place target (or an alias of it passed again)
             checked += 1
             if not same_now(fd, s, a):
                 changed.append(f"arg{i}:{type(a).__name__}")
